@@ -187,3 +187,6 @@ def run(rep):
     rep.check(order == exp_names, 'C15.name-identity', 'names-and-order', where,
               f'the exported constants are {order[:6]}..; expected the constants\' own names in declaration order {exp_names[:6]}..', ok_detail=f'{len(order)} items, own names, declaration order')
     rep.floor('model constants compared', len(expected), 30)
+    # the section reaches the assembled output unconditionally (shared rule, lib/sections.py)
+    from sections import check_wiring
+    check_wiring(rep, 'C15.section-wiring', ['pub const #name : #', 'pub const #'], 'constants-section')
